@@ -111,7 +111,11 @@ inline ApiCase gen_dft(const MODULE* mod, MODULE_TYPE t, DftShape s, const char*
     int ia = c.add("a", R_IN, ae * 8);
     // limb 1 (when present, FFT64): every coefficient a non-zero multiple of 2^32 (a plaintext scaled by a power of two)
     for (size_t e = 0; e < ae; ++e) { int64_t v = dft_in_value(t, e); if (t == FFT64 && e / s.asl == 1 && e % s.asl < N) v = ((int64_t)(e % 7) + 1) * ((e & 1) ? -1 : 1) * (INT64_C(1) << 32);
-      if (t == NTT120 && e / s.asl == 1 && e % s.asl < N) v = (v >> 32) * (INT64_C(1) << 32); put_i64(c.bufs[ia].init, e, v); }
+      if (t == NTT120 && e / s.asl == 1 && e % s.asl < N) v = (v >> 32) * (INT64_C(1) << 32);
+      // limb 2 (mod 4): zero except its LAST coefficient; limb 3 (mod 4): zero except its FIRST one (sparse rows: a "this row is zero" test must look at every coefficient)
+      if (s.asl && e % s.asl < N && (e / s.asl) % 4 == 2 && e % s.asl != N - 1) v = 0;
+      if (s.asl && e % s.asl < N && (e / s.asl) % 4 == 3 && e % s.asl != 0) v = 0;
+      put_i64(c.bufs[ia].init, e, v); }
     Buf& R = c.bufs[ir];
     size_t lb = dft_bytes(t, N, 1);
     for (uint64_t i = 0; i < s.rs; ++i) memset(&R.mask[i * lb], i < smin ? 2 : 1, lb);  // limbs >= smin: exactly zero
